@@ -357,6 +357,37 @@ def markers_returned_by_later_stages_are_values(col):
                     break
 
 
+def split_separators_of_every_kind(col):
+    """Iter().split(sep) is split_iter(source, sep): a str / bytes separator is ONE value (whatever its length), None separates at
+    None, a list / tuple / set is a collection of separator values, a callable is a predicate - on streams of strings, bytes and mixed
+    records, with and without maxsplit, on one spec object evaluated twice"""
+    streams = [
+        ('lines', ['a', '--', 'b', 'c', '', 'd', '--', '--', 'e', '-']),
+        ('paragraphs', ['t1', 't2', '', 't3', '', '', 't4']),
+        ('bytes', [b'x', b'ab', b'y', b'', b'a', b'b', b'ab']),
+        ('mixed', [1, None, 'ab', 2, 0, None, 'a', 'b', 3, ('a',), 0]),
+        ('chars', list('a-b--c')),
+    ]
+    seps = [('two-char str', '--'), ('empty str', ''), ('one-char str', '-'), ('bytes', b'ab'), ('empty bytes', b''), ('None', None),
+            ('list of strs', ['--', '']), ('tuple', ('a', 'b')), ('set', {'--', '-'}), ('frozenset', frozenset(['ab', 0])), ('zero', 0),
+            ('predicate', lambda x: x in ('', None)), ('list holding a tuple', [('a',)]), ('str of separators', 'ab')]
+    for sname, items in streams:
+        for pname, sep in seps:
+            for maxsplit in (None, 1, 2):
+                spec = Iter().split(sep) if maxsplit is None else Iter().split(sep, maxsplit)
+                want = call(lambda: list(split_iter(list(items), sep=sep, maxsplit=maxsplit)))
+                for n in (1, 2):
+                    got = call(lambda: list(G(list(items), spec)))
+                    col.case(('split-separators', sname, pname, maxsplit, n), True)
+                    col.count('glom_pipelines')
+                    col.count('split_separator_cases')
+                    if got.ok != want.ok or (got.ok and got.value != want.value):
+                        col.violation('C17/output-differs:split:separator-%s' % pname.replace(' ', '-'),
+                                      'Iter().split(%r%s) over %r (evaluation #%d): %r ; split_iter gives %r'
+                                      % (sep, '' if maxsplit is None else ', %d' % maxsplit, items, n, got, want), None)
+                        break
+
+
 def independent_stage_checks(col, rng):
     """chunked / windowed / unique against list-based re-implementations"""
     for _ in range(60):
@@ -449,6 +480,7 @@ def run(ctx):
     if ctx.shard == 0:
         independent_stage_checks(col, rng)
         markers_returned_by_later_stages_are_values(col)
+        split_separators_of_every_kind(col)
     for i in range(ctx.n(8000, 40000)):
         pipeline_case(col, rng)
     for i in range(ctx.n(1000, 5000)):
